@@ -281,6 +281,11 @@ def gen_scenarios(n, seed):
     i = 0
     while len(out) < max(n, n_adv + 60):
         out.append(dict(kind='rnd', seed=rng.randrange(10**9), fam=fams[i % len(fams)]))
+        if i % 4 == 3:
+            # more than 8 columns (ids beyond the first slots of small hash tables), with constant stretches: column / variable
+            # bookkeeping of the remove-features step on small remaining scopes with large ids
+            out[-1]['wide'] = True
+            out[-1]['fam'] = 'B' if i % 8 == 3 else 'C'
         i += 1
     return out
 
@@ -306,7 +311,7 @@ def build(sc):
         s = Scenario(rng, n_rows, n_cols, False, fail_p=0.15, pattern=pattern, blocks=blocks)
         return data, s, min_rows, min_cols
     n_rows = rng.randint(3, 60)
-    n_cols = rng.randint(1, 6)
+    n_cols = rng.randint(9, 13) if sc.get('wide') else rng.randint(1, 6)
     stretches = []
     if fam in ('B', 'C'):
         for c in range(n_cols):
